@@ -4,6 +4,7 @@ import (
 	"flag"
 	"fmt"
 	"sort"
+	"strconv"
 	"strings"
 
 	"github.com/EliCDavis/jbtf"
@@ -314,7 +315,7 @@ func (i *Instance) buildNodeGraphInstanceSchema(node nodes.Node, encoder *jbtf.E
 	}
 
 	sort.Slice(nodeInstance.Dependencies, func(i, j int) bool {
-		return strings.ToLower(nodeInstance.Dependencies[i].Name) < strings.ToLower(nodeInstance.Dependencies[j].Name)
+		return dependencyNameLess(nodeInstance.Dependencies[i].Name, nodeInstance.Dependencies[j].Name)
 	})
 
 	if param, ok := node.(CustomGraphSerialization); ok {
@@ -326,6 +327,29 @@ func (i *Instance) buildNodeGraphInstanceSchema(node nodes.Node, encoder *jbtf.E
 	}
 
 	return nodeInstance
+}
+
+// dependencyNameLess orders input names alphabetically, and elements of an
+// array input ("Values.2", "Values.10") by their numeric index
+func dependencyNameLess(a, b string) bool {
+	aName, aIndex, aIsArr := splitArrayInputName(a)
+	bName, bIndex, bIsArr := splitArrayInputName(b)
+	if aIsArr && bIsArr && strings.EqualFold(aName, bName) {
+		return aIndex < bIndex
+	}
+	return strings.ToLower(a) < strings.ToLower(b)
+}
+
+func splitArrayInputName(name string) (string, int, bool) {
+	dot := strings.LastIndex(name, ".")
+	if dot == -1 {
+		return name, 0, false
+	}
+	index, err := strconv.Atoi(name[dot+1:])
+	if err != nil {
+		return name, 0, false
+	}
+	return name[:dot], index, true
 }
 
 // NODES ======================================================================
